@@ -48,6 +48,7 @@ EXTENDS Integers, Sequences, FiniteSets, TLC
 
 CONSTANT Variant     \* "ref" | "stop_keeps_sub" | "stuck_parent" | "reverse_scan" | "handler_ignored"
                      \* | "enter_first" | "exit_twice" | "parent_first" | "no_reent_guard"
+                     \* | "guard_released_early" | "route_bound_early"
 CONSTANT StopOrders  \* subset of {0,1}: 0 = stop() stops the sub-machine before the exit action, 1 = after
 
 VARIABLES prog,      \* the program (never changes during a behaviour)
@@ -71,6 +72,7 @@ InitSt(P) == [run  |-> [m \in 1..Len(P.ms) |-> FALSE], cur |-> [m \in 1..Len(P.m
               nxt  |-> [m \in 1..Len(P.ms) |-> -1],    cb |-> [m \in 1..Len(P.ms) |-> 0],
               gp   |-> [g \in 1..Len(P.gs) |-> 0],     hp |-> [h \in 1..Len(P.hs) |-> 0],
               rf   |-> [i \in 1..Len(P.re) |-> 0],     bal |-> [k \in Keys(P) |-> 0],
+              act  |-> [m \in 1..Len(P.ms) |-> 0],    bi |-> [m \in 1..Len(P.ms) |-> 0],
               so   |-> 0, out |-> <<>>]
 
 Ev(v, t, g) == [v |-> v, t |-> t, g |-> g]
@@ -82,15 +84,21 @@ Res(s, ret, open) == [s |-> s, ret |-> ret, open |-> open]
 RECURSIVE StartM(_, _), StopM(_, _), RunM(_, _, _), CallM(_, _, _), Fire(_, _, _, _, _),
           Own(_, _, _, _), Transit(_, _, _, _, _, _), Scan(_, _, _, _, _, _)
 
-(* the callback (k, id) of machine m has just run (v = 1: it is installed): perform its re-entrant attempt *)
+(* the callback (k, id) of machine m has just run (v = 1: it is installed): perform its re-entrant attempt.  The     *)
+(* attempt re[i] targets machine re[i].t: m itself, or an ancestor of m; an attempt on an ancestor is made only while *)
+(* that ancestor is activating the nested machine of a state it has just entered (act[t] = 1: its state-changed       *)
+(* notification into a state owning a nested machine was delivered earlier in this public call) - exactly the window  *)
+(* in which the ancestor is still inside its own run() and must refuse; otherwise the attempt waits.                   *)
 Fire(v, s, k, m, id) ==
-  LET idx == {i \in 1..Len(prog.re) : prog.re[i].m = m /\ prog.re[i].k = k /\ prog.re[i].id = id /\ s.rf[i] = 0}
+  LET idx == {i \in 1..Len(prog.re) : /\ prog.re[i].m = m /\ prog.re[i].k = k /\ prog.re[i].id = id /\ s.rf[i] = 0
+                                      /\ (prog.re[i].t = m \/ s.act[prog.re[i].t] = 1)}
   IN IF v = 0 \/ idx = {} THEN s
      ELSE LET i  == MinOf(idx)
               c  == prog.re[i].c
+              t  == prog.re[i].t
               s1 == [s EXCEPT !.rf[i] = 1]
-              r  == CallM(s1, m, c)
-          IN Emit(r.s, Ev(1, <<"R", m, c[1], c[2], B2I(r.ret), B2I(QProj(r.s, m) = QProj(s1, m))>>, <<>>))
+              r  == CallM(s1, t, c)
+          IN Emit(r.s, Ev(1, <<"R", m, c[1], c[2], B2I(r.ret), B2I(QProj(r.s, t) = QProj(s1, t)), t>>, <<>>))
 
 StartM(s, m) ==
   IF s.run[m] \/ s.cb[m] # 0 THEN Res(s, FALSE, FALSE)
@@ -105,12 +113,12 @@ StartM(s, m) ==
 StopM(s, m) ==
   IF ~s.run[m] \/ (s.cb[m] # 0 /\ Variant # "no_reent_guard") THEN s
   ELSE LET c  == s.cur[m]
-           sr == StateRec(m, c)
+           sr == IF s.bi[m] = 1 THEN TermRec ELSE StateRec(m, c)
            keep == sr.sub = 0 \/ Variant = "stop_keeps_sub"
            s0 == IF keep \/ s.so = 1 THEN s ELSE StopM(s, sr.sub)      \* the active sub-machine is stopped too
            s1 == [s0 EXCEPT !.cb[m] = @ + 1]
            s2 == Fire(sr.ex, Emit(Bal(s1, m, c, -1), Ev(sr.ex, <<"X", m, c, 0, -1>>, <<>>)), "X", m, c)
-           s3 == [s2 EXCEPT !.cb[m] = @ - 1, !.cur[m] = -1, !.run[m] = FALSE, !.ldef[m] = FALSE]
+           s3 == [s2 EXCEPT !.cb[m] = @ - 1, !.cur[m] = -1, !.run[m] = FALSE, !.ldef[m] = FALSE, !.bi[m] = 0]
        IN IF keep \/ s.so = 0 THEN s3 ELSE StopM(s3, sr.sub)
 
 (* route scan: ord = the order in which the route indices are visited, j = position in ord *)
@@ -127,7 +135,8 @@ Scan(s, m, rs, ord, j, ev) ==
 (* one transition of machine m: exit -> route action -> enter -> notification -> nested machine gets the event *)
 Transit(s, m, from, to, r, ev) ==
   LET fr  == StateRec(m, from)
-      tr  == StateRec(m, to)
+      early == Variant = "route_bound_early" /\ r # 0 /\ to = 0      \* wrong: a route to 0 bypasses the user's terminal state
+      tr  == IF early THEN TermRec ELSE StateRec(m, to)
       aid == IF r = 0 THEN 0 ELSE fr.rs[r].a
       s1  == [s EXCEPT !.nxt[m] = to, !.cb[m] = @ + 1]
       DoExit(x)  == Fire(fr.ex, Emit(Bal(x, m, from, -1), Ev(fr.ex, <<"X", m, from, ev, x.nxt[m]>>, <<>>)), "X", m, from)
@@ -136,11 +145,14 @@ Transit(s, m, from, to, r, ev) ==
              ELSE IF Variant = "exit_twice" THEN DoExit(DoExit(s1)) ELSE DoExit(s1)
       s3  == [s2 EXCEPT !.last[m] = from, !.ldef[m] = TRUE, !.cur[m] = -1]
       s4  == Fire(B2I(aid # 0), Emit(s3, Ev(B2I(aid # 0), <<"A", m, aid, ev, s3.cur[m], s3.nxt[m]>>, r)), "A", m, aid)
-      s5  == [s4 EXCEPT !.cur[m] = to, !.nxt[m] = -1]
+      s5  == [s4 EXCEPT !.cur[m] = to, !.nxt[m] = -1, !.bi[m] = B2I(early)]
       s6  == IF Variant = "enter_first" THEN DoExit(s5) ELSE DoEnter(s5)
       s7  == Fire(Mach(m).cc, Emit(s6, Ev(Mach(m).cc, <<"C", m, from, ev, to, s6.cur[m]>>, <<>>)), "C", m, 0)
-      s8  == IF tr.sub # 0 THEN RunM(StartM(s7, tr.sub).s, tr.sub, ev).s ELSE s7
-  IN Res([s8 EXCEPT !.cb[m] = @ - 1], TRUE, FALSE)
+      \* activation of the nested machine of the new state: still inside this machine's run() (guard raised)
+      s7a == IF tr.sub # 0 /\ Mach(m).cc = 1 THEN [s7 EXCEPT !.act[m] = 1] ELSE s7
+      s7b == IF Variant = "guard_released_early" THEN [s7a EXCEPT !.cb[m] = @ - 1] ELSE s7a
+      s8  == IF tr.sub # 0 THEN RunM(StartM(s7b, tr.sub).s, tr.sub, ev).s ELSE s7b
+  IN Res(IF Variant = "guard_released_early" THEN s8 ELSE [s8 EXCEPT !.cb[m] = @ - 1], TRUE, FALSE)
 
 (* machine m processes ev with its own handlers and routes *)
 Own(s, m, ev, subChanged) ==
@@ -261,7 +273,15 @@ C_SubMachineFirstUntilTerminated(w) == (w.call[1] = 4 /\ w.out[1].g.run[1]) =>
      /\ \A j \in 1..(Len(ch) - 1) :                                  \* the parent takes over iff the nested one terminated
            (\E i \in 1..Len(o) : o[i].t[1] = "P" /\ o[i].t[2] = ch[j]) <=> TermInCall(o, ch[j + 1])
 
-(* calls made on a machine from inside its own callbacks are rejected and change nothing *)
+(* the enter / exit action of every state the user defined (a user-defined terminal state included), every route     *)
+(* action and the notification are actually invoked whenever the semantics passes through them                        *)
+C_DefinedActionsRun(w) == \A i \in 1..Len(w.out) : LET e == w.out[i]  t == e.t IN
+  /\ t[1] = "E" => e.v = StateRec(t[2], t[3]).en
+  /\ t[1] = "X" => e.v = StateRec(t[2], t[3]).ex
+  /\ t[1] = "C" => e.v = Mach(t[2]).cc
+
+(* calls made on a machine from inside its own callbacks - and from callbacks of its nested machines while it is    *)
+(* still inside run(), activating them - are rejected and change nothing                                             *)
 C_ReentrantCallsRejected(w) == \A i \in 1..Len(w.out) : LET t == w.out[i].t IN t[1] = "R" => t[5] = 0 /\ t[6] = 1
 
 C_StateSane(w) == \A m \in Ms :
@@ -269,13 +289,15 @@ C_StateSane(w) == \A m \in Ms :
   /\ (m # 1 /\ w.st.run[m]) => \E p \in Ms : w.st.run[p] /\ StateRec(p, w.st.cur[p]).sub = m
 
 ClauseNames == {"ExitActionEnterOrder", "OncePerTransition", "StartStopShape", "EnterExitBalanced", "EnteredIffCurrent",
-                "HandlerBeforeRoutes", "FirstMatchingRoute", "SubMachineFirstUntilTerminated", "ReentrantCallsRejected", "StateSane"}
+                "HandlerBeforeRoutes", "FirstMatchingRoute", "SubMachineFirstUntilTerminated", "ReentrantCallsRejected", "StateSane",
+                "DefinedActionsRun"}
 Holds(n, w) == CASE n = "ExitActionEnterOrder" -> C_ExitActionEnterOrder(w) [] n = "OncePerTransition" -> C_OncePerTransition(w)
                  [] n = "StartStopShape" -> C_StartStopShape(w) [] n = "EnterExitBalanced" -> C_EnterExitBalanced(w)
                  [] n = "EnteredIffCurrent" -> C_EnteredIffCurrent(w) [] n = "HandlerBeforeRoutes" -> C_HandlerBeforeRoutes(w)
                  [] n = "FirstMatchingRoute" -> C_FirstMatchingRoute(w)
                  [] n = "SubMachineFirstUntilTerminated" -> C_SubMachineFirstUntilTerminated(w)
                  [] n = "ReentrantCallsRejected" -> C_ReentrantCallsRejected(w) [] n = "StateSane" -> C_StateSane(w)
+                 [] n = "DefinedActionsRun" -> C_DefinedActionsRun(w)
 
 (* the invariants: every clause holds for the last step; viol caches that verdict, computed when the step is taken,  *)
 (* so that large models can use VIEW View (which drops lastCall/lastOut) without masking any violation               *)
@@ -290,6 +312,7 @@ FirstMatchingRoute == "FirstMatchingRoute" \notin viol
 SubMachineFirstUntilTerminated == "SubMachineFirstUntilTerminated" \notin viol
 ReentrantCallsRejected == "ReentrantCallsRejected" \notin viol
 StateSane == "StateSane" \notin viol
+DefinedActionsRun == "DefinedActionsRun" \notin viol
 VerdictExact == lastCall[1] # 0 => viol = {n \in ClauseNames : ~Holds(n, Step)}   \* the cached verdict is the verdict
 NoViolation == viol = {}
 View == <<pi, st, viol>>
@@ -298,8 +321,8 @@ View == <<pi, st, viol>>
 (* the public calls on the root machine *)
 (* StepOf is an expression (TLC caches LET values inside expressions, not inside actions); DoCall binds its value once *)
 StepOf(s, c, so) ==
-  LET r   == CallM([s EXCEPT !.so = so, !.out = <<>>], 1, c)
-      s2  == [r.s EXCEPT !.out = <<>>, !.so = 0]
+  LET r   == CallM([s EXCEPT !.so = so, !.out = <<>>, !.act = [m \in 1..Len(prog.ms) |-> 0]], 1, c)
+      s2  == [r.s EXCEPT !.out = <<>>, !.so = 0, !.act = [m \in 1..Len(prog.ms) |-> 0]]
       out == <<Ev(0, <<"B", 1, c[1], c[2]>>, [run |-> s.run, cur |-> s.cur])>> \o r.s.out   \* "B": ghost snapshot before the call
       w   == [out |-> out, st |-> s2, call |-> c]
   IN [st |-> s2, out |-> out, ret |-> [ret |-> r.ret, open |-> r.open], viol |-> {n \in ClauseNames : ~Holds(n, w)}]
@@ -319,6 +342,41 @@ Next == Start \/ Stop \/ Restart \/ Run
 
 InitWith(i, P) == /\ pi = i /\ prog = P /\ st = InitSt(P) /\ lastCall = <<0, 0>> /\ lastOut = <<>>
                /\ lastRet = [ret |-> FALSE, open |-> FALSE] /\ viol = {}
+
+(* The program is DEFINED by a sequence of definition calls, prog.defs (only in recorded executions): 4-tuples        *)
+(*   <<"S",m,si,0>> newState(ss[si])   <<"R",m,si,j>> addRoute(ss[si].rs[j])   <<"H",m,si,j>> addEvent(ss[si].hd[j])      *)
+(*   <<"I",m,0,0>> setInitState(init)  <<"U",m,si,0>> setSubStateMachine(ss[si].id, machine ss[si].sub)                   *)
+(* in ANY legal order: a state exists before its routes / handlers / nested machine are attached, the routes of one   *)
+(* state keep their registration order, a route's target exists unless it is the terminal state 0 (which the user may  *)
+(* declare later, or never), setInitState may come at any time and may be omitted iff the first declared state is the  *)
+(* initial one.  The reference semantics above does not read defs: the meaning of a program is independent of the      *)
+(* order of its definition calls (except the relative order of the routes of a state).                                 *)
+DefsLegal(P) ==
+  LET D == P.defs
+      at(op) == {i \in 1..Len(D) : D[i] = op}
+      once(op) == Cardinality(at(op)) = 1
+      pos(op) == MinOf(at(op))
+      sidx(m, id) == MinOf({i \in 1..Len(P.ms[m].ss) : P.ms[m].ss[i].id = id})
+      valid(op) == /\ op[2] \in 1..Len(P.ms)
+                   /\ LET ss == P.ms[op[2]].ss IN
+                      CASE op[1] = "S" -> op[3] \in 1..Len(ss) /\ op[4] = 0
+                        [] op[1] = "R" -> op[3] \in 1..Len(ss) /\ op[4] \in 1..Len(ss[op[3]].rs)
+                        [] op[1] = "H" -> op[3] \in 1..Len(ss) /\ op[4] \in 1..Len(ss[op[3]].hd)
+                        [] op[1] = "U" -> op[3] \in 1..Len(ss) /\ op[4] = 0 /\ ss[op[3]].sub # 0
+                        [] op[1] = "I" -> op[3] = 0 /\ op[4] = 0
+                        [] OTHER -> FALSE
+  IN /\ \A i \in 1..Len(D) : valid(D[i]) /\ once(D[i])
+     /\ \A m \in 1..Len(P.ms) : LET M == P.ms[m] IN
+          /\ \A si \in 1..Len(M.ss) : LET S == M.ss[si] IN
+               /\ once(<<"S", m, si, 0>>)
+               /\ \A j \in 1..Len(S.rs) :
+                     /\ once(<<"R", m, si, j>>) /\ pos(<<"R", m, si, j>>) > pos(<<"S", m, si, 0>>)
+                     /\ j > 1 => pos(<<"R", m, si, j>>) > pos(<<"R", m, si, j - 1>>)
+                     /\ S.rs[j].to # 0 => pos(<<"R", m, si, j>>) > pos(<<"S", m, sidx(m, S.rs[j].to), 0>>)
+               /\ \A j \in 1..Len(S.hd) : once(<<"H", m, si, j>>) /\ pos(<<"H", m, si, j>>) > pos(<<"S", m, si, 0>>)
+               /\ S.sub # 0 => once(<<"U", m, si, 0>>) /\ pos(<<"U", m, si, 0>>) > pos(<<"S", m, si, 0>>)
+          /\ IF at(<<"I", m, 0, 0>>) # {} THEN once(<<"I", m, 0, 0>>)
+             ELSE LET first == MinOf({i \in 1..Len(D) : D[i][1] = "S" /\ D[i][2] = m}) IN M.ss[D[first][3]].id = M.init
 
 (* binding helpers (Trace_Hfsm): the observable part of a semantic trace; what the machines report after a call.     *)
 (* lastState() is compared only while it is defined by the statement's trace: after a transition of the current run. *)
